@@ -380,10 +380,25 @@ func runC02(x *xctx) *violation {
 	}
 	x.fault("shortread-1byte", 1)
 
-	execs, parsedDamaged := 0, 0
+	execs, parsedDamaged, e2e := 0, 0, 0
 	try := func(kind string, desc string, mutated []byte) *violation {
 		simos.PutFile(path, mutated)
 		execs++
+		if execs%97 == 1 {
+			// every 97th damaged input also goes through the whole tool:
+			// pprof -top <file> must report an error or produce the report
+			e2e++
+			w := newWriter()
+			o := &plugin.Options{Flagset: newFlags([]string{"-top", "-output=o", "in.prof"}), UI: newTaskUI(), Writer: w, Sym: nopSym{}, Obj: nopObj{}, HTTPTransport: failTransport{}}
+			res := simrt.Exec(simrt.Config{Tape: x.t, Strategy: simrt.StratRunToBlock}, func() { PProf(o) })
+			x.note(res)
+			if v := resultViolation(res); v != nil {
+				x.tr("fault: %s (end to end: pprof -top)", desc)
+				v.Detail = fmt.Sprintf("pprof -top on %s damaged by %s: %s", name, desc, v.Detail)
+				return v
+			}
+			simos.PutFile(path, mutated)
+		}
 		// Validity, Write->Parse, Copy and Compact for every damaged input; the
 		// eleven text reports for every one in the thorough tier and for every
 		// 8th in the quick tier (they dominate the cost when most damaged
@@ -546,6 +561,7 @@ func runC02(x *xctx) *violation {
 		}
 	}
 	x.stats["damaged_inputs"] += int64(execs)
+	x.stats["end_to_end_pprof_runs"] += int64(e2e)
 	x.stats["damaged_inputs_that_parsed_differently"] += int64(parsedDamaged)
 	if parsedDamaged > 0 {
 		x.probe("damaged_input_accepted_as_different_profile")
